@@ -21,7 +21,7 @@ for name, runs in sorted(rows.items()):
         continue
     meta = json.load(open(mp))
     meta["checks_run"] = runs
-    base = name[3:] if name.startswith(("R2-", "R3-")) else name
+    base = name[3:] if name.startswith(("R2-", "R3-", "R4-")) else name
     meta["breaks_property"] = base.split("-")[0]
     meta.setdefault("confirmed", {"patch_applies_to_repo_head": True, "demo_exit_patched": 1, "demo_exit_clean": 0,
                                   "how": "tools/verify_seeded.sh <dir> in a scratch worktree (PV_SRC=<worktree>/src python demo.py; git apply; pytest)"})
